@@ -16,6 +16,7 @@
 package main
 
 import (
+	"bufio"
 	"bytes"
 	"encoding/hex"
 	"flag"
@@ -148,9 +149,37 @@ type StageCase struct {
 	Runs     []StageRun `json:"runs"`
 }
 
+// ConcCase: several connections through ONE endpoint at the same time, each
+// carrying payloads whose every 8-byte word names the direction, the
+// connection and the offset.
+type ConcDir struct {
+	Sent      int    `json:"sent"`
+	Received  int    `json:"received"`
+	PrefixOK  bool   `json:"prefix_ok"`
+	Complete  bool   `json:"complete"`
+	FirstDiff int    `json:"first_diff"`       // byte offset of the first wrong word, -1
+	Foreign   string `json:"foreign,omitempty"` // what that word says when it names another connection / direction
+	Err       string `json:"err,omitempty"`
+}
+
+type ConcConn struct {
+	ID  int     `json:"id"`
+	C2A ConcDir `json:"c2a"`
+	A2C ConcDir `json:"a2c"`
+}
+
+type ConcCase struct {
+	Mode     string     `json:"mode"`
+	Conns    []ConcConn `json:"conns"`
+	C2ABytes int        `json:"c2a_bytes"`
+	A2CBytes int        `json:"a2c_bytes"`
+	SetupErr string     `json:"setup_err,omitempty"`
+}
+
 type Case struct {
 	I      int        `json:"i"`
 	Stream string     `json:"stream"`
+	Conc   *ConcCase  `json:"conc,omitempty"`
 	Stage  *StageCase `json:"stage,omitempty"`
 	Write  *WriteCase `json:"write,omitempty"`
 	Read   *ReadCase  `json:"read,omitempty"`
@@ -742,6 +771,166 @@ func runStage(r *hx.Rng, kind int) *StageCase {
 	return c
 }
 
+// ---- conc stream: concurrent connections through one endpoint ----
+
+// tagged fills n bytes (a multiple of 8 is used) with words
+// [dir, id, offset/8 in 6 bytes].
+func tagged(dir byte, id int, n int) []byte {
+	b := make([]byte, n)
+	for off := 0; off+8 <= n; off += 8 {
+		w := uint64(off / 8)
+		b[off], b[off+1] = dir, byte(id)
+		b[off+2], b[off+3], b[off+4] = byte(w>>40), byte(w>>32), byte(w>>24)
+		b[off+5], b[off+6], b[off+7] = byte(w>>16), byte(w>>8), byte(w)
+	}
+	return b
+}
+
+func checkTagged(dir byte, id int, sent int, got []byte, rerr error) ConcDir {
+	d := ConcDir{Sent: sent, Received: len(got), PrefixOK: true, FirstDiff: -1}
+	if rerr != nil && rerr != io.EOF {
+		d.Err = classify(rerr)
+	}
+	want := tagged(dir, id, sent)
+	if len(got) > sent {
+		d.PrefixOK, d.FirstDiff = false, sent
+	} else if !bytes.Equal(got, want[:len(got)]) {
+		d.PrefixOK = false
+		k := diffAt(got, want) &^ 7
+		d.FirstDiff = k
+		if k+8 <= len(got) {
+			w := got[k : k+8]
+			off := (uint64(w[2])<<40 | uint64(w[3])<<32 | uint64(w[4])<<24 | uint64(w[5])<<16 | uint64(w[6])<<8 | uint64(w[7])) * 8
+			if (w[0] == 'A' || w[0] == 'C') && (w[0] != dir || int(w[1]) != id) {
+				d.Foreign = fmt.Sprintf("a word of connection %d, direction %c, offset %d", w[1], w[0], off)
+			}
+		}
+	}
+	d.Complete = d.PrefixOK && len(got) == sent
+	return d
+}
+
+func runConc(r *hx.Rng, mode string, nconn, c2a, a2c int) *ConcCase {
+	res := &ConcCase{Mode: mode, C2ABytes: c2a, A2CBytes: a2c}
+	lookup := func(domain string) (*sniproxy.Dest, error) {
+		if domain == "conc.example" {
+			return &sniproxy.Dest{Name: "/ep0"}, nil
+		}
+		return nil, fmt.Errorf("bad domain %q", domain)
+	}
+	var mu sync.Mutex
+	appSide := map[int]ConcDir{}
+	var appWG sync.WaitGroup
+	handler := func(ep string, conn net.Conn) {
+		defer appWG.Done()
+		defer conn.Close()
+		conn.SetDeadline(time.Now().Add(40 * time.Second))
+		br := bufio.NewReaderSize(conn, 4096)
+		if _, err := e2e.ReadRecord(br); err != nil {
+			return
+		}
+		line, err := br.ReadString('\n')
+		var id int
+		if _, e := fmt.Sscanf(line, "ID %d", &id); err != nil || e != nil {
+			return
+		}
+		var wg sync.WaitGroup
+		wg.Add(1)
+		go func() {
+			defer wg.Done()
+			data := tagged('A', id, a2c)
+			for off := 0; off < len(data); {
+				n := 256 << 10
+				if n > len(data)-off {
+					n = len(data) - off
+				}
+				if _, err := conn.Write(data[off : off+n]); err != nil {
+					return
+				}
+				off += n
+			}
+		}()
+		got := make([]byte, c2a)
+		n, rerr := io.ReadFull(br, got)
+		d := checkTagged('C', id, c2a, got[:n], rerr)
+		wg.Wait()
+		// wait for the client to have everything before closing
+		io.Copy(io.Discard, br)
+		mu.Lock()
+		appSide[id] = d
+		mu.Unlock()
+	}
+	appWG.Add(nconn)
+	w, err := e2e.NewWorld(mode, lookup, []string{"/ep0"}, handler)
+	if err != nil {
+		res.SetupErr = err.Error()
+		return res
+	}
+	defer w.Close()
+	hello := e2e.SynthHello("conc.example", true, 0)
+	res.Conns = make([]ConcConn, nconn)
+	var cwg sync.WaitGroup
+	start := make(chan struct{})
+	for k := 0; k < nconn; k++ {
+		cwg.Add(1)
+		go func(id int) {
+			defer cwg.Done()
+			cc := ConcConn{ID: id}
+			defer func() { res.Conns[id] = cc }()
+			<-start
+			conn, err := w.DialFront()
+			if err != nil {
+				cc.A2C.Err = "front-dial: " + err.Error()
+				return
+			}
+			defer conn.Close()
+			conn.SetDeadline(time.Now().Add(40 * time.Second))
+			first := append(append([]byte{}, hello...), []byte(fmt.Sprintf("ID %d\n", id))...)
+			if _, err := conn.Write(first); err != nil {
+				cc.A2C.Err = "write: " + err.Error()
+				return
+			}
+			var wg sync.WaitGroup
+			wg.Add(1)
+			go func() {
+				defer wg.Done()
+				data := tagged('C', id, c2a)
+				splitWrite(conn, data, []int{[]int{1000, 4096, 32768, 65536, 100000}[id%5]})
+			}()
+			got := make([]byte, a2c)
+			n, rerr := io.ReadFull(conn, got)
+			cc.A2C = checkTagged('A', id, a2c, got[:n], rerr)
+			wg.Wait()
+		}(k)
+	}
+	close(start)
+	cwg.Wait()
+	for _, c := range res.Conns {
+		_ = c
+	}
+	w.Front.Close()
+	done := make(chan struct{})
+	go func() {
+		// the application sides end when their clients have closed
+		appWG.Wait()
+		close(done)
+	}()
+	select {
+	case <-done:
+	case <-time.After(15 * time.Second):
+	}
+	mu.Lock()
+	for i := range res.Conns {
+		if d, ok := appSide[res.Conns[i].ID]; ok {
+			res.Conns[i].C2A = d
+		} else {
+			res.Conns[i].C2A = ConcDir{Sent: c2a, FirstDiff: -1, PrefixOK: true, Err: "application side did not finish"}
+		}
+	}
+	mu.Unlock()
+	return res
+}
+
 // ---- e2e stream ----
 
 type appPlan struct {
@@ -1070,6 +1259,10 @@ func plan(seed uint64, n, e2eN int, big, huge bool) []spec {
 	for i := 0; i < 10; i++ {
 		ss = append(ss, spec{stream: "stage", seed: r.U64(), a: 2})
 	}
+	// several connections at once through one endpoint, tagged payloads both ways
+	for _, mode := range e2e.Modes {
+		ss = append(ss, spec{stream: "conc", seed: r.U64(), mode: mode, a: 256 << 10, b: 2 << 20})
+	}
 	// then the boundary sizes in every mode
 	for _, mode := range e2e.Modes {
 		for _, sz := range []int{4096, 4097, 32769, 65537} {
@@ -1158,6 +1351,8 @@ func runSpec(i int, s spec) (c Case) {
 		c.Pipe = runPipe(r)
 	case "stage":
 		c.Stage = runStage(r, s.a)
+	case "conc":
+		c.Conc = runConc(r, s.mode, 8, s.a, s.b)
 	case "e2e":
 		mw := worlds[s.mode]
 		if mw == nil {
